@@ -86,7 +86,7 @@ def run(chk, repo, tier):
     # the unitarity of propagate._fft2 (norm='ortho', or 1/sqrt(rows*cols) by hand) is rule C09-h, run below under C05-b
     from .common import Remap
     from . import c09
-    _run_nested(c09, Remap(chk, {'C09-d': 'C05-b', 'C09-e': 'C05-b', 'C09-h': 'C05-b', 'C09-g': 'C05-b'}), repo, tier)
+    _run_nested(c09, Remap(chk, {'C09-d': 'C05-b', 'C09-e': 'C05-b', 'C09-h': 'C05-b', 'C09-g': 'C05-b', 'C09-b': 'C05-b'}), repo, tier)
 
     # ---------------------------------------------------------------- C05-c
     fi, paths, _ = analyse(repo, 'field.insert', config={'intensity': TRUE, 'weight': C(1)},
